@@ -136,6 +136,7 @@ def allocation_failures(m, img, info, prefix='C04', exact=True):
 def oracle(program, track):
     shim.install('UTC')
     failures = []
+    shim.set_tick(len(program['ops']) % 2 == 1)      # a moving clock in half of the cases (nothing here compares bytes across runs)
     run = Run(program)
     run.run_all()
     run.stats = {'c01_domain': 0}
